@@ -53,6 +53,7 @@ def run(tier, replay=None):
     else:
         n = 500 if thorough else 70
         progs = progen.corpus(seed() + 7, n, classes=["calls", "mem", "calls", "mixed"], nstmts=14 if thorough else 10)
+        progs += progen.depth_sweep(depths=(0, 17, 18, 24) if thorough else (0, 17), groups=["control", "memory"], rng_seed=seed())
         progs += [{"src": s, "kernel": k, "inputs": list(range(1, 25)), "class": "pos:" + nm} for nm, s, k in POS]
         progs += [{"src": KPOS[1], "kernel": KPOS[2], "inputs": [1, 2, 3], "class": "pos:" + KPOS[0]}]
         progs += [{"src": s, "kernel": None, "inputs": [], "adv": adv, "class": "neg:" + nm} for nm, s, adv in NEG]
